@@ -4,6 +4,7 @@ import (
 	"bytes"
 	"context"
 	"fmt"
+	rwire "google.golang.org/protobuf/encoding/protowire"
 
 	dproto "github.com/cloudwego/dynamicgo/proto"
 	pg "github.com/cloudwego/dynamicgo/proto/generic"
@@ -294,6 +295,48 @@ func cmpProj(dec, v *tref.Val, S, T *gen.Type, o c11opts) string {
 	return ""
 }
 
+// pUnknownReach walks a message the way the projection does (a field missing from the target is skipped as a
+// whole, a field present in both is entered) and reports whether a field missing from the SOURCE descriptor is met:
+// direct = met along singular messages and list elements, viaMap = met only inside map values.
+func pUnknownReach(m protoreflect.Message, skipS, skipT map[protoreflect.FullName]bool, inMap bool) (direct, viaMap bool) {
+	m.Range(func(fd protoreflect.FieldDescriptor, v protoreflect.Value) bool {
+		if skipS[fd.FullName()] {
+			if inMap {
+				viaMap = true
+			} else {
+				direct = true
+			}
+			return true
+		}
+		if skipT[fd.FullName()] {
+			return true
+		}
+		sub := func(mm protoreflect.Message, im bool) {
+			d, vm := pUnknownReach(mm, skipS, skipT, im)
+			direct, viaMap = direct || d, viaMap || vm
+		}
+		switch {
+		case fd.IsMap():
+			if fd.MapValue().Kind() == protoreflect.MessageKind {
+				v.Map().Range(func(k protoreflect.MapKey, mv protoreflect.Value) bool {
+					sub(mv.Message(), true)
+					return true
+				})
+			}
+		case fd.IsList():
+			if fd.Kind() == protoreflect.MessageKind {
+				for i := 0; i < v.List().Len(); i++ {
+					sub(v.List().Get(i).Message(), inMap)
+				}
+			}
+		case fd.Kind() == protoreflect.MessageKind:
+			sub(v.Message(), inMap)
+		}
+		return true
+	})
+	return
+}
+
 // renumSchema renders sc as a target schema in which every field named in skip is either left out or - with
 // probability 1/2 - kept under its name but with a different, unused number: the projection is by field NUMBER, so
 // such a field must stay empty in the output just as if it had been left out.  Returns the text and the count of
@@ -338,7 +381,51 @@ func renumSchema(r *h.Rand, sc *gen.PSchema, skip map[protoreflect.FullName]bool
 	return text, renum
 }
 
+// c11NestedUnknown: an unknown field inside a sub-message under DisallowUnknown whose following bytes would parse as
+// fields of the enclosing message: the projection must fail (and must not take the rest of the sub-message for
+// fields of the parent).
+func c11NestedUnknown(c *h.Ctx) {
+	const text = "syntax = \"proto3\";\noption go_package = \"verif/pb\";\nmessage B { int32 y = 1; }\nmessage A { B b = 1; int32 x = 2; repeated B l = 3; string s = 4; }\nservice Svc { rpc M(A) returns (A); }\n"
+	c.Run("proto-cut-nested-unknown", c.N(60, 600), func(cs *h.Case) {
+		svc, err := dproto.NewDescritorFromContent(context.Background(), "verif.proto", text, nil)
+		if err != nil {
+			cs.Viol("pcut:parse", "err", err)
+			return
+		}
+		d := svc.LookupMethodByName("M").Input()
+		unk := rwire.AppendTag(nil, rwire.Number(5+cs.R.Intn(20)), rwire.VarintType) // unknown in B
+		// the value of the unknown field (0x10) doubles as the tag of A.x; then B.y = v follows (0x08 v), which read at
+		// A's level would be the value of x and a further tag
+		tail := []byte{0x10, 0x08, byte(1 + cs.R.Intn(100))}
+		inner := append(append([]byte{}, unk...), tail...)
+		var in []byte
+		host := rwire.Number([]int{1, 3}[cs.R.Intn(2)])
+		in = rwire.AppendTag(in, host, rwire.BytesType)
+		in = rwire.AppendBytes(in, inner)
+		if cs.R.Bool() {
+			in = append(rwire.AppendTag(in, 2, rwire.VarintType), 9)
+		}
+		cs.Info("input", hexs(in))
+		out, err := pg.NewRootValue(d, in).MarshalTo(d, &pg.Options{DisallowUnknown: true, UseNativeSkip: cs.R.Bool()})
+		if err == nil {
+			cs.Viol("pcut:nested-unknown-accepted", "out", out)
+			return
+		}
+		cs.Cover("pcut_nested_unknown_rejected")
+		// without the option the unknown field is dropped and the rest is kept
+		out, err = pg.NewRootValue(d, in).MarshalTo(d, &pg.Options{})
+		if err != nil {
+			cs.Viol("pcut:nested-unknown:error-without-option", "err", err)
+			return
+		}
+		cs.Info("out", hexs(out))
+		cs.Cover("pcut_nested_unknown_dropped")
+		cs.Distinct(fmt.Sprintf("nu-%d-%x", host, tail))
+	})
+}
+
 func runC11(c *h.Ctx) {
+	defer c11NestedUnknown(c)
 	c.Run("thrift-cut", c.N(6000, 150000), func(cs *h.Case) {
 		sc := gen.GenSchema(cs.R, gen.Cfg{MaxDepth: 3, MaxFields: 6, StructKeys: cs.R.Chance(40), BigIDs: true, Recursive: true, Requiredness: cs.R.Bool()})
 		S := structType(sc.Root)
@@ -456,9 +543,18 @@ func runC11(c *h.Ctx) {
 		}
 		from, to := ssvc.LookupMethodByName("M").Input(), tsvc.LookupMethodByName("M").Input()
 		m := PGenMsg(cs.R, pc.Root, PValCfg{NonFinite: true, MaxElems: 4, MaxDepth: 3}, 0)
-		pClearFields(m, skipS) // a value described by the source descriptor
+		// usually a value described by the source descriptor; in a fifth of the cases the fields the source
+		// descriptor lacks stay in: they are unknown fields at whatever depth they sit
+		unknownSrc := !identical && cs.R.Chance(20)
+		unkDirect, unkViaMap := false, false
+		if unknownSrc {
+			unkDirect, unkViaMap = pUnknownReach(m, skipS, skipT, false)
+		} else {
+			pClearFields(m, skipS)
+		}
 		b := PMarshal(m)
 		want := proto.Clone(m).(*dynamicpb.Message)
+		pClearFields(want, skipS)
 		pClearFields(want, skipT)
 		cs.Info("message", trunc(fmt.Sprint(m)))
 		cs.Info("bytes", hexs(b))
@@ -470,9 +566,24 @@ func runC11(c *h.Ctx) {
 		if identical {
 			kind = "pcut:identical"
 		}
+		if unknownSrc && opts.DisallowUnknown && (unkDirect || unkViaMap) {
+			if unkDirect {
+				if err == nil {
+					cs.Viol("pcut:unknown-field-accepted", "out", out)
+				} else {
+					cs.Cover("pcut_unknown_rejected")
+				}
+			} else {
+				cs.Cover("pcut_unknown_only_inside_map_values_unasserted")
+			}
+			return
+		}
 		if err != nil {
 			cs.Viol(kind+":unexpected-error", "err", err)
 			return
+		}
+		if unknownSrc && (unkDirect || unkViaMap) {
+			cs.Cover("pcut_unknown_fields_dropped")
 		}
 		got := dynamicpb.NewMessage(pc.Root)
 		if uerr := PUnmarshal(out, got); uerr != nil {
